@@ -197,6 +197,12 @@ def _clock_symbols(expr, path, index, fn):
             if isinstance(node.ctx, ast.Load) and rules.is_current_time(node, fn):
                 return ast.Name(id='NOW_', ctx=ast.Load())
             return self.generic_visit(node)
+
+        def visit_Call(self, node):
+            # the clock read through its getter (`time._now()`)
+            if rules.is_clock_call(node, fn):
+                return ast.Name(id='NOW_', ctx=ast.Load())
+            return self.generic_visit(node)
     tree = Sub().visit(copy.deepcopy(expr))
     names = set()
     for node in ast.walk(tree):
